@@ -66,7 +66,7 @@ def check_c07(tier, model=None):
                 rep.violation({"clause": f["c"], "pos": f["pos"]}, {"source": tag, "failure": f})
     finally:
         shutil.rmtree(work, ignore_errors=True)
-    rep.coverage.update({"states": 2, "transitions": 1, "traces_validated_against_impl": len(sources), "obligations": obl, "items_extracted": nitems,
+    rep.coverage.update({"states": 2, "transitions": 1, "traces_validated_against_impl": len(sources), "image_obligations": obl, "items_extracted": nitems,
                          "observations_ungated_item_mentions_gated_type": [w["pos"] for w in warns], "exhaustive": True,
                          "rule": "the rust plugin is run from the working tree; the emitted lib.rs (and the committed copy) is rustfmt-parsed, projected to items / fields / type terms / serde names by harness/extract_rust.py and compared by RustImage.tla with the image computed from the metamodel: every structure, enumeration, alias, message, method-enum variant and feature gate",
                          "samples": [{"struct Position expected fields": ["line: u32", "character: u32"]}, {"sources": [t for t, _ in sources]}]})
@@ -99,7 +99,7 @@ def check_c08(tier, model=None):
                 rep.violation({"clause": "D_duplicate_definition", "pos": d}, {"name": d})
     finally:
         shutil.rmtree(work, ignore_errors=True)
-    rep.coverage.update({"states": 2, "transitions": 1, "traces_validated_against_impl": 1, "obligations": obl, "files_parsed": nfiles, "exhaustive": True,
+    rep.coverage.update({"states": 2, "transitions": 1, "traces_validated_against_impl": 1, "image_obligations": obl, "files_parsed": nfiles, "exhaustive": True,
                          "rule": "the dotnet plugin is run from the working tree; every .cs file is projected (records, DataMember names, parsed type terms, nullability, NullValueHandling.Ignore, JsonConstructor assignments, enum members, LSPRequest/LSPResponse/Direction attributes, the LSPMethods table) and compared by DotnetImage.tla with the image computed from the metamodel",
                          "samples": [{"record Position expected members": ["line: long", "character: long"]}]})
     rep.assumptions = ["harness/extract_cs.py reads the generator's regular C# output line by line (one attribute per line, one property per line)",
